@@ -382,6 +382,15 @@ theorem overlapping_polls_can_diverge :
     ("a", "v2") ∈ w2.S.liveKeys w2.t ∧ ("a", "v2") ∉ w2.C.liveKeys w2.t ∧ ("a", "v1") ∈ w2.C.liveKeys w2.t ∧
     w2.C.seed = w2.S.seed ∧ w2.C.lastTs = w2.S.lastTs := by decide
 
+/-- one slow response is NOT harmless when the replica is wiped (seed change) while it is in flight: it was requested relative
+    to the old copy's timestamp and is applied to the fresh one -/
+theorem overlapping_poll_across_wipe_diverges :
+    let w := run factCfg exDef { t := 10 }
+      [.register (exVP "a" "v1" 100), .pollA, .pollB id, .reset, .register (exVP "b" "v2" 100), .register (exVP "a" "v3" 105),
+       .dpollStart, .pollA, .pollB id, .dpollFinish 0 id]
+    let w2 := poll factCfg exDef (poll factCfg exDef w id) id
+    ("b", "v2") ∈ w2.S.liveKeys w2.t ∧ ("b", "v2") ∉ w2.C.liveKeys w2.t ∧ w2.C.seed = w2.S.seed ∧ w2.C.lastTs = w2.S.lastTs := by decide
+
 /-! ### totality -/
 
 /-- `Register` accepts exactly when the registration predicate holds and the same presentation is not listed already -/
